@@ -254,7 +254,7 @@ def observe_impl(v):
     if isinstance(v, BaseException):
         return {"kind": "E", "cls": type(v).__name__, "err": ERRMAP.get(type(v).__name__, "EPyValue"), "msg": str(v)[:200]}
     if isinstance(v, torchtt.TT):
-        cores = [c.detach().cpu().resolve_conj().numpy() for c in v.cores]
+        cores = [c.detach().cpu().resolve_conj().resolve_neg().numpy() for c in v.cores]
         o = {"kind": "M" if v.is_ttm else "T", "R": [int(r) for r in v.R], "N": [int(n) for n in v.N],
              "dtype": str(cores[0].dtype) if cores else None,
              "core_dtypes": sorted(set(str(c.dtype) for c in cores)),
@@ -268,14 +268,14 @@ def observe_impl(v):
         except Exception as e:
             o["dense"] = None; o["dense_err"] = repr(e)
         try:
-            f = v.full().detach().cpu().resolve_conj().numpy()
+            f = v.full().detach().cpu().resolve_conj().resolve_neg().numpy()
             o["full_shape"] = list(f.shape)
             o["full_matches_cores"] = bool(o.get("dense_raw") is not None and f.size == o["dense_raw"].size and np.array_equal(f.reshape(-1), o["dense_raw"].reshape(-1)))
         except Exception as e:
             o["full_shape"] = None; o["full_err"] = type(e).__name__
         return o
     if torch.is_tensor(v):
-        a = v.detach().cpu().resolve_conj().numpy()
+        a = v.detach().cpu().resolve_conj().resolve_neg().numpy()
         return {"kind": "D", "shape": list(a.shape), "dense": ttgen.exact_ints(a), "dense_raw": a, "dtype": str(a.dtype)}
     if v is None:
         return {"kind": "N"}
@@ -316,7 +316,7 @@ def operands_intact(e, dtype):
         o = getattr(lit, "_obj", None)
         if o is None or getattr(lit, "_eval_id", None) != EVAL_ID[0]: continue
         try:
-            cs = [c.detach().cpu().resolve_conj().numpy() for c in o.cores]
+            cs = [c.detach().cpu().resolve_conj().resolve_neg().numpy() for c in o.cores]
             ok = len(cs) == len(lit.cores) and all(c.shape == l.shape and np.array_equal(c, l.astype(c.dtype)) for c, l in zip(cs, lit.cores))
             ok = ok and [int(r) for r in o.R] == [1] + [l.shape[-1] for l in lit.cores] and [int(n) for n in o.N] == [l.shape[-2] for l in lit.cores]
             if o.is_ttm: ok = ok and [int(m) for m in o.M] == [l.shape[1] for l in lit.cores]
